@@ -24,6 +24,8 @@
 //	G<r>=<k> Tree.Get(k) (the register is not used): item g:<key>,<ok>
 //	C<a><b>  reg b = reg a .Clone()
 //	n p l r u m x <r>   Next Prev Left Right Up Min Max   (item gets "!" if the result is not the receiver)
+//	w<r>:<seq>  the moves of <seq> (letters n p l r u m x) one after the other with nothing observed in
+//	            between; h H v k inside <seq> call HasNext HasPrev Valid Key there: item y<answers>=<state>
 //	i<r> Inorder (all)   j<r>:<k> Inorder stopped after k keys
 //	N<r> / P<r>  Next / Prev until invalid, at most Len+2 steps: keys visited, then final Valid
 //
@@ -167,8 +169,181 @@ func obs(t *stree.Tree[int], c *stree.Cursor[int]) string {
 		tr.B(c.Valid()) + tr.B(c.HasNext()) + tr.B(c.HasPrev()) + tr.B(c.HasLeft()) + tr.B(c.HasRight()) + tr.B(c.HasParent())
 }
 
+// machine: the cursor registers over one tree.  big = the tree may hold thousands of keys: key lists
+// longer than 200 are printed as a digest (fmtInts).
+type machine struct {
+	t    *stree.Tree[int]
+	regs [4]*stree.Cursor[int]
+	used int
+	big  bool
+}
+
+func (m *machine) ints(xs []int) string {
+	if m.big {
+		return fmtInts(xs)
+	}
+	return tr.Ints(xs)
+}
+
+func (m *machine) state() string {
+	var s []string
+	for i := 0; i < m.used; i++ {
+		s = append(s, obs(m.t, m.regs[i]))
+	}
+	return strings.Join(s, "/")
+}
+
+func (m *machine) touch(r int) {
+	if r+1 > m.used {
+		m.used = r + 1
+	}
+}
+
+// op runs one register operation and returns its item.
+func (m *machine) op(op string) string {
+	t := m.t
+	if len(op) < 2 {
+		return "?"
+	}
+	r := int(op[1] - '0')
+	if r < 0 || r > 3 {
+		return "?"
+	}
+	switch op[0] {
+	case 'K':
+		if len(op) < 4 {
+			return "?"
+		}
+		k, _ := strconv.Atoi(op[3:])
+		m.regs[r] = t.Cursor(k)
+		m.touch(r)
+		return m.state()
+	case 'G':
+		if len(op) < 4 {
+			return "?"
+		}
+		k, _ := strconv.Atoi(op[3:])
+		v, ok := t.Get(k)
+		return "g:" + strconv.Itoa(v) + "," + tr.B(ok)
+	case 'O':
+		m.regs[r] = t.Root()
+		m.touch(r)
+		return m.state()
+	case 'Z':
+		m.regs[r] = nil
+		m.touch(r)
+		return m.state()
+	case 'E':
+		m.regs[r] = new(stree.Cursor[int])
+		m.touch(r)
+		return m.state()
+	case 'C':
+		if len(op) < 3 || op[2] < '0' || op[2] > '3' {
+			return "?"
+		}
+		b := int(op[2] - '0')
+		m.touch(r)
+		m.regs[b] = m.regs[r].Clone()
+		m.touch(b)
+		return m.state()
+	case 'n', 'p', 'l', 'r', 'u', 'm', 'x':
+		m.touch(r)
+		c := m.regs[r]
+		var got *stree.Cursor[int]
+		switch op[0] {
+		case 'n':
+			got = c.Next()
+		case 'p':
+			got = c.Prev()
+		case 'l':
+			got = c.Left()
+		case 'r':
+			got = c.Right()
+		case 'u':
+			got = c.Up()
+		case 'm':
+			got = c.Min()
+		case 'x':
+			got = c.Max()
+		}
+		s := m.state()
+		if got != c {
+			s += "!"
+		}
+		return s
+	case 'w':
+		// w<r>:<seq>: the moves of seq applied one after the other with NOTHING observed in between
+		// (every other op is followed by all observers on all registers); the letters h H v k call
+		// HasNext, HasPrev, Valid, Key at that point and record the answer
+		if len(op) < 4 || op[2] != ':' || strings.Trim(op[3:], "nplrumxhHvk") != "" {
+			return "?"
+		}
+		m.touch(r)
+		c := m.regs[r]
+		var res strings.Builder
+		for _, ch := range op[3:] {
+			switch ch {
+			case 'n':
+				c.Next()
+			case 'p':
+				c.Prev()
+			case 'l':
+				c.Left()
+			case 'r':
+				c.Right()
+			case 'u':
+				c.Up()
+			case 'm':
+				c.Min()
+			case 'x':
+				c.Max()
+			case 'h':
+				res.WriteString(tr.B(c.HasNext()))
+			case 'H':
+				res.WriteString(tr.B(c.HasPrev()))
+			case 'v':
+				res.WriteString(tr.B(c.Valid()))
+			case 'k':
+				res.WriteString("(" + strconv.Itoa(c.Key()) + ")")
+			}
+		}
+		return "y" + res.String() + "=" + m.state()
+	case 'i':
+		m.touch(r)
+		var ks []int
+		m.regs[r].Inorder(func(k int) bool { ks = append(ks, k); return true })
+		return "i:" + m.ints(ks)
+	case 'j':
+		if len(op) < 4 {
+			return "?"
+		}
+		m.touch(r)
+		lim, _ := strconv.Atoi(op[3:])
+		var ks []int
+		m.regs[r].Inorder(func(k int) bool { ks = append(ks, k); return len(ks) < lim })
+		return "i:" + m.ints(ks)
+	case 'N', 'P':
+		m.touch(r)
+		var ks []int
+		c := m.regs[r]
+		for step := 0; c.Valid() && step < t.Len()+2; step++ {
+			ks = append(ks, c.Key())
+			if op[0] == 'N' {
+				c.Next()
+			} else {
+				c.Prev()
+			}
+		}
+		return "s:" + m.ints(ks) + ":" + tr.B(c.Valid())
+	}
+	return "?"
+}
+
 func exec(in string) string {
 	f := strings.Fields(in)
+	if len(f) == 4 && f[0] == "B" {
+		return execBig(f)
+	}
 	if len(f) != 5 || f[0] != "W" {
 		return "?"
 	}
@@ -184,110 +359,9 @@ func exec(in string) string {
 			all = append(all, k)
 		}
 		items = append(items, "t:"+tr.Ints(all))
-		var regs [4]*stree.Cursor[int]
-		used := 0
-		state := func() string {
-			var s []string
-			for i := 0; i < used; i++ {
-				s = append(s, obs(t, regs[i]))
-			}
-			return strings.Join(s, "/")
-		}
-		touch := func(r int) {
-			if r+1 > used {
-				used = r + 1
-			}
-		}
+		m := &machine{t: t}
 		for _, op := range split(f[4], ";") {
-			if len(op) < 2 {
-				items = append(items, "?")
-				continue
-			}
-			r := int(op[1] - '0')
-			if r < 0 || r > 3 {
-				items = append(items, "?")
-				continue
-			}
-			switch op[0] {
-			case 'K':
-				k, _ := strconv.Atoi(op[3:])
-				regs[r] = t.Cursor(k)
-				touch(r)
-				items = append(items, state())
-			case 'G':
-				k, _ := strconv.Atoi(op[3:])
-				v, ok := t.Get(k)
-				items = append(items, "g:"+strconv.Itoa(v)+","+tr.B(ok))
-			case 'O':
-				regs[r] = t.Root()
-				touch(r)
-				items = append(items, state())
-			case 'Z':
-				regs[r] = nil
-				touch(r)
-				items = append(items, state())
-			case 'E':
-				regs[r] = new(stree.Cursor[int])
-				touch(r)
-				items = append(items, state())
-			case 'C':
-				b := int(op[2] - '0')
-				touch(r)
-				regs[b] = regs[r].Clone()
-				touch(b)
-				items = append(items, state())
-			case 'n', 'p', 'l', 'r', 'u', 'm', 'x':
-				touch(r)
-				c := regs[r]
-				var got *stree.Cursor[int]
-				switch op[0] {
-				case 'n':
-					got = c.Next()
-				case 'p':
-					got = c.Prev()
-				case 'l':
-					got = c.Left()
-				case 'r':
-					got = c.Right()
-				case 'u':
-					got = c.Up()
-				case 'm':
-					got = c.Min()
-				case 'x':
-					got = c.Max()
-				}
-				s := state()
-				if got != c {
-					s += "!"
-				}
-				items = append(items, s)
-			case 'i':
-				touch(r)
-				var ks []int
-				regs[r].Inorder(func(k int) bool { ks = append(ks, k); return true })
-				items = append(items, "i:"+tr.Ints(ks))
-			case 'j':
-				touch(r)
-				lim, _ := strconv.Atoi(op[3:])
-				var ks []int
-				regs[r].Inorder(func(k int) bool { ks = append(ks, k); return len(ks) < lim })
-				items = append(items, "i:"+tr.Ints(ks))
-			case 'N', 'P':
-				touch(r)
-				var ks []int
-				c := regs[r]
-				for step := 0; c.Valid() && step < t.Len()+2; step++ {
-					ks = append(ks, c.Key())
-					if op[0] == 'N' {
-						c.Next()
-					} else {
-						c.Prev()
-					}
-				}
-				items = append(items, "s:"+tr.Ints(ks)+":"+tr.B(c.Valid()))
-			default:
-				items = append(items, "?")
-			}
+			items = append(items, m.op(op))
 		}
 	})
 	if res != "" {
@@ -300,6 +374,27 @@ func exec(in string) string {
 
 type gen struct {
 	g *tr.G
+	// noShape: the line being built has no shape field (B lines): compound walks use only the moves
+	// whose result the checker can follow on the key list alone (Next, Prev)
+	noShape bool
+}
+
+// compound returns a compound walk w<r>:<seq> of n letters: moves, now and then an observer
+func (x *gen) compound(reg string, n int) string {
+	r := x.g.R
+	mv := moves
+	if x.noShape {
+		mv = "nnpp"
+	}
+	var sb strings.Builder
+	for i := 0; i < n; i++ {
+		if r.Chance(1, 4) {
+			sb.WriteByte("hHvkhH"[r.Intn(6)])
+		} else {
+			sb.WriteByte(mv[r.Intn(len(mv))])
+		}
+	}
+	return "w" + reg + ":" + sb.String()
 }
 
 const moves = "nplrumx"
@@ -426,8 +521,10 @@ func (x *gen) randomWalk(keys []int, steps int) []string {
 		reg := r.Intn(nreg)
 		rs := strconv.Itoa(reg)
 		switch c := r.Intn(100); {
-		case c < 62:
+		case c < 50:
 			ops = append(ops, string(moves[r.Intn(len(moves))])+rs)
+		case c < 62: // several moves with nothing observed in between
+			ops = append(ops, x.compound(rs, 2+r.Intn(5)))
 		case c < 70:
 			ops = append(ops, "K"+rs+"="+strconv.Itoa(pick()))
 		case c < 74:
@@ -457,10 +554,177 @@ func (x *gen) randomWalk(keys []int, steps int) []string {
 	return ops
 }
 
+// shrinkHistory: a build string that grows a tree by 16..90 Adds (ascending, descending, zig-zag or
+// random) at a balance factor below 1000 and then removes keys, shallow ones first or from one end,
+// until 1/2, 1/4 or 1/8 remain (so that the remaining keys sit deeper than a tree of that size grown
+// by Adds alone would put them).
+func shrinkHistory(r *tr.Rand, cmps string, i int) (string, []string) {
+	beta := tr.Pick(r, []int{0, 0, 1, 50, 250, 500})
+	n := 16 + r.Intn(75)
+	pat := "adzr"[r.Intn(4)]
+	var ops []string
+	for _, j := range orderIdx(pat, n, r.Intn(1000)) {
+		ops = append(ops, "a"+strconv.Itoa(3*j))
+	}
+	head := "H" + strconv.Itoa(beta) + "//"
+	t := build(cmps, head+strings.Join(ops, "_"), "")
+	keys := inorderKeys(t)
+	keep := max(1, len(keys)/[]int{2, 4, 4, 8}[r.Intn(4)])
+	ord := "sssslhorebB"[r.Intn(11)]
+	for _, j := range removalIdx(ord, len(keys), keep, r.Intn(1000), func() []int { return depthsInorder(t) }) {
+		ops = append(ops, "r"+strconv.Itoa(keys[j]))
+	}
+	return head + strings.Join(ops, "_"), []string{"shrink-order-" + string(ord), "shrink-grow-" + string(pat)}
+}
+
+// scaleSize: a size around a power of two, 2^k-1, 2^k or 2^k+1
+func scaleSize(r *tr.Rand, kmin, kmax int) int {
+	return 1<<(kmin+r.Intn(kmax-kmin+1)) + r.Intn(3) - 1
+}
+
+func (x *gen) bigTrees() {
+	// (tr.Rand streams of different seeds are shifts of one sequence and often fall into step after a
+	// few thousand draws: this section draws from a stream whose offset is a scrambled function of the seed)
+	g, r := x.g, tr.NewRand(tr.NewRand(x.g.Seed).Uint64()^0xC03B16)
+	betas := []int{0, 1, 50, 250, 500, 800, 999}
+	pats := "adzr"
+	orders := "lhoibBreEsp"
+	adversarial := map[byte]string{'a': "lbe", 'd': "hbE", 'z': "oib", 'r': "rbB", 'i': "oib", 'b': "lhB"}
+	if g.Thorough() {
+		pats = "adzrib"
+	}
+	emitOne := func(beta int, pat byte, ord byte, n int, cmps string) {
+		t := stree.New(beta, cmpFor(cmps))
+		var ops []string
+		known := true // can the checker know the key set here? (not after a real-depth order until a probe prints it)
+		run := func(op string) {
+			ops = append(ops, op)
+			applyMacro(t, op)
+		}
+		probeOp := func() {
+			s := 1 + r.Intn(4)
+			if t.Len() > 1100 {
+				s = 1
+			}
+			ops = append(ops, "Q"+strconv.Itoa(s))
+			if t.Len() <= plainMax {
+				known = true
+			}
+		}
+		tags := []string{"big-tree", "big-beta-" + strconv.Itoa(beta), "big-grow-" + string(pat), "big-shrink-" + string(ord)}
+		if n >= 1023 {
+			tags = append(tags, "big-1023-or-more")
+		}
+		if n >= 4095 {
+			tags = append(tags, "big-4095-or-more")
+		}
+		walks := func() {
+			if !known || t.Len() == 0 {
+				return
+			}
+			keys := inorderKeys(t)
+			depths := depthsInorder(t)
+			for _, d := range depths {
+				if d > 100 { // every item prints the paths of the registers: keep the line bounded
+					return
+				}
+			}
+			// the deepest key, a key whose path holds 2^k nodes (a full path slice), a random key
+			deepest, full := 0, -1
+			for i, d := range depths {
+				if d > depths[deepest] {
+					deepest = i
+				}
+				if d+1 >= 4 && (d+1)&d == 0 && (full < 0 || r.Chance(1, 3)) {
+					full = i
+				}
+			}
+			starts := []int{deepest, r.Intn(len(keys))}
+			if full >= 0 {
+				starts = append(starts, full)
+				tags = append(tags, "big-walk-full-path-slice")
+			}
+			for _, i := range starts {
+				ks := strconv.Itoa(keys[i])
+				ops = append(ops, "K0="+ks, "G0="+ks, "C01", "u0", "r0", "K0="+ks, "C01", "u1", "l1", "K0="+ks, "C01", "n0", "n0", "p0", "p0", "p0",
+					"K0="+ks, "C01", "C02", "p1", "p1", "n2", "n2", "j0:3", "j1:2", "K0="+ks, "u0", "u0", "m0", "K0="+ks, "u0", "u0", "x0", "j0:5")
+			}
+			x.noShape = true
+			w := x.randomWalk(keys, 12+r.Intn(12))
+			x.noShape = false
+			w[0] = "K0=" + strconv.Itoa(keys[deepest])
+			ops = append(ops, w...)
+			tags = append(tags, "big-walk")
+		}
+		run(fmt.Sprintf("A%c:0:%d:3:%d", pat, n, r.Intn(100000)))
+		probeOp()
+		for _, fr := range []int{2, 4, 8, 16} {
+			run(fmt.Sprintf("R%c:%d:%d", ord, n/fr, r.Intn(100000)))
+			if ord == 's' || ord == 'p' {
+				known = false
+			}
+			probeOp()
+			if fr == 4 || (fr == 16 && r.Chance(1, 2)) {
+				walks()
+			}
+		}
+		run(fmt.Sprintf("A%c:1:%d:3:%d", "adzr"[r.Intn(4)], n/2, r.Intn(100000)))
+		if ord == 's' || ord == 'p' {
+			known = false
+		}
+		probeOp()
+		g.Emit("B "+cmps+" "+strconv.Itoa(beta)+" "+strings.Join(ops, ";"), true, tags...)
+	}
+	count := 0
+	sizeFor := func(beta int) int {
+		count++
+		switch {
+		case beta >= 999: // no rebalancing in reach: the tree is as deep as the insertion order makes it
+			return 100 + r.Intn(g.Scale(160, 300))
+		case g.Thorough():
+			if count%8 == 0 {
+				return scaleSize(r, 12, 13)
+			}
+			return scaleSize(r, 8, 11)
+		default: // quick: 72 trees below 999, of which 2 around 4096 and 5 around 2048
+			if count%36 == 29 && beta > 1 { // (at 0 and 1 nearly every Add rebuilds: slow to replay on the model)
+				return scaleSize(r, 12, 12)
+			}
+			if count%14 == 3 {
+				return scaleSize(r, 11, 11)
+			}
+			return scaleSize(r, 8, 10)
+		}
+	}
+	cmpOf := func() string {
+		if r.Chance(1, 3) {
+			return tr.Pick(r, []string{"r", "a", "t", "h", "A", "D", "x", "X"})
+		}
+		return "n"
+	}
+	for _, beta := range betas {
+		for pi := 0; pi < len(pats); pi++ {
+			pat := pats[pi]
+			if g.Thorough() {
+				for oi := 0; oi < len(orders); oi++ {
+					emitOne(beta, pat, orders[oi], sizeFor(beta), cmpOf())
+				}
+				continue
+			}
+			// quick: the real shallow-first order, one order that keeps the keys this growth pattern put
+			// deepest, one order at random
+			adv := adversarial[pat]
+			emitOne(beta, pat, 's', sizeFor(beta), "n")
+			emitOne(beta, pat, adv[r.Intn(len(adv))], sizeFor(beta), cmpOf())
+			emitOne(beta, pat, orders[r.Intn(len(orders))], sizeFor(beta), cmpOf())
+		}
+	}
+}
+
 func main() {
 	tr.Main("C03: every tree shape with up to 4 (quick) / 5 (thorough) nodes x every start (each key, absent keys, Root, nil, empty) x every sequence of up to 2 (3) of the seven moves, with a clone taken first and re-read after every move; trees built by Add/Replace/Remove/Clear/New histories (ascending and descending vines, zig-zags, churn with delete-side rebuilds, bulk New, random mixes) at β in {0,1,250,500,999,1000,random} under natural, reversed and modular comparators, and from each of them random walks (from random keys and, for trees up to 16 keys, from every key) over all moves, re-anchoring, clones in up to 4 registers, Inorder (full and stopped early) and full Next/Prev sweeps from every key. The real shape and every cursor's real path are read from the node pointers by a hook. A case is non-trivial when the tree has at least two nodes and at least one cursor operation; distinct = distinct input lines.",
 		exec, func(g *tr.G) {
-			x := &gen{g}
+			x := &gen{g: g}
 			r := g.R
 			// 1. exhaustive small scope
 			maxN := g.Scale(4, 5)
@@ -524,9 +788,36 @@ func main() {
 					}
 				}
 			}
+			// 1b. moves with NOTHING observed in between (everywhere else all observers of all registers run
+			// after every op, which would refresh anything a cursor remembers between calls): for every
+			// shape up to 4 (5) nodes and every start, every sequence of 3 moves as one compound walk, and
+			// every pair of moves with HasNext (HasPrev) called before, between and after / before and after
+			for n := 1; n <= maxN; n++ {
+				for _, shape := range allShapes(n, 10) {
+					var starts []string
+					for _, k := range shapeKeys(shape) {
+						starts = append(starts, "K0="+strconv.Itoa(k))
+					}
+					starts = append(starts, "O0")
+					for _, st := range starts {
+						var ops []string
+						for _, a := range moves {
+							for _, b := range moves {
+								for _, c := range moves {
+									ops = append(ops, st, "w0:"+string([]rune{a, b, c}))
+								}
+								for _, o := range "hH" {
+									ops = append(ops, st, "w0:"+string([]rune{o, a, o, b, o}), st, "w0:"+string([]rune{o, a, b, o}))
+								}
+							}
+						}
+						x.emit("n", "P", shape, ops, "exhaustive", "compound-walk")
+					}
+				}
+			}
 			// 2. sweeps from every key, and clone independence in both directions, on history-built trees
 			betas := []int{0, 1, 250, 500, 999, 1000}
-			patterns := []string{"asc", "desc", "zigzag", "bulk", "churn", "mix"}
+			patterns := []string{"asc", "desc", "zigzag", "bulk", "churn", "mix", "shrink"}
 			for i := 0; i < g.Scale(600, 6000); i++ {
 				beta := tr.Pick(r, betas)
 				if r.Chance(1, 4) {
@@ -554,14 +845,31 @@ func main() {
 					cmps = tr.Pick(r, []string{"a", "t", "h", "A", "D", "x", "X"})
 					ctags = []string{"comparator-magnitudes"}
 				}
-				b := history(r, pat, beta, n)
+				b := ""
+				var stags []string
+				if pat == "shrink" {
+					b, stags = shrinkHistory(r, cmps, i)
+					beta = -1 // chosen by shrinkHistory
+				} else {
+					b = history(r, pat, beta, n)
+				}
 				t := build(cmps, b, "")
 				shape := dump(t)
 				var keys []int
 				for k := range t.Inorder {
 					keys = append(keys, k)
 				}
-				tags := []string{"history-" + pat}
+				tags := append([]string{"history-" + pat}, stags...)
+				if pat == "shrink" {
+					// from EVERY remaining key: Cursor, Get, one step each way, Up, Max, Inorder of the subtree
+					var ev []string
+					for _, k := range keys {
+						ks := strconv.Itoa(k)
+						ev = append(ev, "K0="+ks, "G0="+ks, "n0", "K0="+ks, "p0", "K0="+ks, "u0", "K0="+ks, "x0", "K0="+ks, "m0", "K0="+ks, "i0")
+					}
+					ev = append(ev, "O0", "m0", "N0", "O0", "x0", "P0")
+					x.emit(cmps, b, shape, ev, append(tags, "every-key-after-shrink")...)
+				}
 				if beta == 1000 {
 					tags = append(tags, "beta-1000")
 				}
@@ -614,6 +922,16 @@ func main() {
 						}
 					}
 				}
+				// compound walks (nothing observed between the moves) from every key of the smaller trees
+				if len(keys) >= 3 && len(keys) <= 20 {
+					var ops []string
+					for _, k := range keys {
+						for j := 0; j < 6; j++ {
+							ops = append(ops, "K0="+strconv.Itoa(k), x.compound("0", 3+r.Intn(5)))
+						}
+					}
+					x.emit(cmps, b, shape, ops, append(tags, "compound-walk")...)
+				}
 				// random walks: from random keys, and from every key of the smaller trees
 				for j := 0; j < 6; j++ {
 					x.emit(cmps, b, shape, x.randomWalk(keys, 10+r.Intn(30)), append(tags, "random-walk")...)
@@ -644,6 +962,9 @@ func main() {
 				}
 				x.emit("n", b, shape, ops, "deep-vine-"+pat, "beta-1000")
 			}
+			// 4. big trees (B lines): grow, shrink to 1/2, 1/4, 1/8, 1/16 of the peak, regrow; probe EVERY key
+			// after every stage; explicit walks from the deepest keys and from keys whose path is 2^k long
+			x.bigTrees()
 			_ = fmt.Sprint
 		})
 }
